@@ -161,7 +161,7 @@ def run(repo, res, tier):
     res.rule("A2-INVERSE", "add and remove helpers iterate the same assignment attributes", 2)
     res.rule("A2-TOTAL", "obstacle removal from lanelet registries uses only non-raising operations", 6)
     res.rule("A3-SIBLINGS", "XML and protobuf readers assign with the same signature", 3)
-    res.rule("A1-LOOKUP-IMPL", "the lookups the assignment relies on filter candidates by geometry and map them to lanelet ids", 7)
+    res.rule("A1-LOOKUP-IMPL", "the lookups the assignment relies on filter candidates by geometry and map them to lanelet ids", 2)
     from .c06 import lookup_rules
 
     lookup_rules(repo, res, "A1-LOOKUP-IMPL")
